@@ -776,9 +776,6 @@ func (g *c12gen) augment(a *Module, mods []*Module, foreign bool) {
 		cands = []*Module{o}
 	}
 	t := cands[g.r.Intn(len(cands))]
-	if foreign {
-		g.feat["augment_from_inner_submodule_into_other_module"]++
-	}
 	pfx := a.Prefix
 	if p, ok := a.ImportPrefix[t]; ok && t != ownerOf(a) {
 		pfx = p
@@ -893,6 +890,9 @@ func (g *c12gen) augment(a *Module, mods []*Module, foreign bool) {
 		}
 	}
 	a.Body.Kids = append(a.Body.Kids, au)
+	if foreign {
+		g.feat["augment_from_inner_submodule_into_other_module"]++
+	}
 	// apply to the expected tree
 	if implicit != "" {
 		target = x.add(implicit, implicit, nil)
